@@ -78,6 +78,12 @@ class Lane(object):
     rdir = os.path.join(self.scratch, 'run')
     shutil.rmtree(rdir, ignore_errors=True)
     os.makedirs(rdir)
+    prep = getattr(self.props[job['prop']], 'prepare_job', None)
+    if prep is not None:
+      try:
+        prep(self, job)     # zygote-side (e.g. reference conversions the child inherits)
+      except BaseException:
+        return {'status': 'harness_error', 'detail': 'prepare_job: ' + traceback.format_exc()[-3000:]}
     r, w = os.pipe()
     sys.stdout.flush()
     sys.stderr.flush()
